@@ -865,6 +865,8 @@ impl Buffer {
                 let mut sixel_line = 0;
                 for y in sy_pix..(sy_pix + sixel.get_height()) {
                     if y < 0 {
+                        // a layer can hang over the top border: the picture row above it is skipped as well
+                        sixel_line += 1;
                         continue;
                     }
                     let y = y as usize;
